@@ -1,11 +1,11 @@
 SPECIFICATION Spec
-CONSTANTS MaxPre = 3 MaxN = 6
-  PreAlphabet <- AlphaMid
-  Accs <- AccsAll
-  Posts <- PostsMid
-  Pairs = {TRUE, FALSE}
+CONSTANTS MaxPre = 3 MaxN = 4
+  PreAlphabet <- AlphaSmall
+  Accs <- AccsSmall
+  Posts <- PostsSmall
+  Pairs = {TRUE}
   Drivers = {"run", "fill", "split"}
-  Bufs <- BufAll
+  Bufs <- BufQuick
 INVARIANT DriversAgree
 INVARIANT FillReaches
 INVARIANT StopSound
